@@ -5,9 +5,9 @@ import random
 
 KINDS = ['sd1', 'sd2', 'sdhc']
 CSDS = {
-    'sd1': [dict(ver=0, c_size=1000, mult=3, bl=9), dict(ver=0, c_size=4095, mult=7, bl=10), dict(ver=0, c_size=3874, mult=7, bl=9)],
-    'sd2': [dict(ver=0, c_size=4095, mult=7, bl=10), dict(ver=0, c_size=2047, mult=6, bl=9)],
-    'sdhc': [dict(ver=1, c_size=15), dict(ver=1, c_size=8191), dict(ver=1, c_size=60000)],
+    'sd1': [dict(ver=0, c_size=1000, mult=3, bl=9), dict(ver=0, c_size=4095, mult=7, bl=10, erase=0), dict(ver=0, c_size=3874, mult=7, bl=9)],
+    'sd2': [dict(ver=0, c_size=4095, mult=7, bl=10), dict(ver=0, c_size=2047, mult=6, bl=9, erase=0)],
+    'sdhc': [dict(ver=1, c_size=15, erase=0), dict(ver=1, c_size=8191), dict(ver=1, c_size=60000)],
 }
 
 def cap(csd):
@@ -21,7 +21,7 @@ def O(op, **kw):
 def standard_ops(nb, rng):
     last = nb - 1
     blocks = [0, 1, last, min(last, 2 ** 22), min(last - 3, 12345)]
-    ops = [O('card_type'), O('num_blocks'), O('num_bytes')]
+    ops = [O('card_type'), O('num_blocks'), O('num_bytes'), O('erase_en')]
     for b in blocks:
         n = rng.choice([1, 1, 2, 3, 4])
         b = max(0, min(b, last - n + 1))
@@ -64,7 +64,7 @@ def weird_csd(seed, quick):
     return S
 
 def follow_up():
-    return [O('read', blk=9, n=1), O('write', blk=9, n=1), O('read', blk=9, n=2), O('mark_uninit'), O('read', blk=9, n=1), O('num_blocks')]
+    return [O('read', blk=9, n=1), O('write', blk=9, n=1), O('read', blk=9, n=2), O('mark_uninit'), O('read', blk=9, n=1), O('num_blocks'), O('erase_en')]
 
 def misbehaving(seed, quick):
     rng = random.Random(seed + 99)
@@ -121,12 +121,14 @@ def misbehaving(seed, quick):
                 add('rd-' + what, kind, crc, [dict(when='data', nth=2, what=what)], [O('read', blk=1, n=1)])
                 add('rdm-' + what, kind, crc, [dict(when='data', nth=3, what=what)], [O('read', blk=1, n=3)])
                 add('csd-' + what, kind, crc, [dict(when='data', nth=2, what=what)], [O('num_blocks')])
+                add('csde-' + what, kind, crc, [dict(when='data', nth=2, what=what)], [O('erase_en')])
             bits = [0, 1, 7, 8, 9, 2047, 2048, 4094, 4095, 4096, 4097, 4103, 4104, 4110, 4111] + [rng.randrange(4112) for _ in range(6 if quick else 60)]
             for b in bits:
                 add('flip%d' % b, kind, crc, [dict(when='data', nth=2, what='flip', arg=b)], [O('read', blk=1, n=1)])
             for b in [0, 5, 4000, 4095] + [rng.randrange(4096) for _ in range(3 if quick else 30)]:
                 add('burst%d' % b, kind, crc, [dict(when='data', nth=3, what='burst', arg=b)], [O('read', blk=1, n=2)])
             add('csdflip', kind, crc, [dict(when='data', nth=2, what='flip', arg=70)], [O('num_bytes')])
+            add('csdeflip', kind, crc, [dict(when='data', nth=2, what='flip', arg=81)], [O('erase_en')])
             # writes
             for what in ['crcreject', 'writeerr', 'garbage', 'busyforever']:
                 add('wr-' + what, kind, crc, [dict(when='write', nth=1, what=what)], [O('write', blk=1, n=1)])
